@@ -14,6 +14,7 @@ sid_templates = {
 
     # basetype pr ("prop"): prj / kind / fam / item / rev / status / fmt
     'pr__file':    '{prj}/{kind:p}/{fam}/{item}/{rev}/{status}/{fmt:images}',
+    'pr__doc':     '{prj}/{kind:p}/{fam}/{item}/{rev}/{status}/{fmt:docs}',          # same keys and same folder / file-name pattern as pr__file: both search the same glob
     'pr__status':  '{prj}/{kind:p}/{fam}/{item}/{rev}/{status}',          # extrapolated
     'pr__item':    '{prj}/{kind:p}/{fam}/{item}',                         # an intermediate level declared explicitly: extrapolation skips it and goes on (pr__fam above it is generated)
     'pr':          '{prj}/{kind:p}',
@@ -36,6 +37,7 @@ to_extrapolate = ['pr__status', 'ct__status', 'l_ib__file']
 formats_image = ['i', 'j', 'k']
 formats_movie = ['u', 'w']
 formats_sound = ['o', 'n', 'z']
+formats_doc = ['d', 't']
 
 extension_alias = {
     'k': ['i', 'j'],
@@ -52,6 +54,7 @@ key_patterns = {
         '{fmt:images}': r'{fmt:(' + '|'.join(formats_image) + r'|\*|\>)}',
         '{fmt:movies}': r'{fmt:(' + '|'.join(formats_movie) + r'|\*|\>)}',
         '{fmt:sounds}': r'{fmt:(' + '|'.join(formats_sound) + r'|\*|\>)}',
+        '{fmt:docs}':   r'{fmt:(' + '|'.join(formats_doc) + r'|\*|\>)}',
     },
     '': {
         '{prj}':    r'{prj:(' + '|'.join(projects) + r'|\*|\>)}',
